@@ -30,6 +30,12 @@ trait Obj {
     fn clear(&mut self);
     fn is_empty(&self) -> bool;
     fn boxed_clone(&self) -> Box<dyn Obj>;
+    fn as_any(&self) -> &dyn std::any::Any;
+    /// overwrite `self` (a used structure of the same type, usually configured differently) with
+    /// `src` through the crate's `Clone::clone_from`; false = not available for this type
+    fn clone_from_obj(&mut self, _src: &dyn Obj) -> bool {
+        false
+    }
     /// true if `apply(w)` is a plain successful add of a positive amount
     fn is_plain_add(&self, w: u64) -> bool;
     /// leave the structure in whatever state an operation that panics half-way leaves it in
@@ -110,6 +116,20 @@ impl<F: Flt + 'static, M: Fn() -> F + Clone + 'static> Obj for FilterObj<F, M> {
     fn boxed_clone(&self) -> Box<dyn Obj> {
         Box::new(FilterObj { f: self.f.try_clone().unwrap(), make: self.make.clone(), u: Rc::clone(&self.u), label: self.label.clone(), ctr: self.ctr.clone() })
     }
+    fn as_any(&self) -> &dyn std::any::Any {
+        self
+    }
+    fn clone_from_obj(&mut self, src: &dyn Obj) -> bool {
+        let Some(s) = src.as_any().downcast_ref::<Self>() else { return false };
+        if !self.f.try_clone_from(&s.f) {
+            return false;
+        }
+        self.make = s.make.clone();
+        self.u = Rc::clone(&s.u);
+        self.label = s.label.clone();
+        self.ctr = s.ctr.clone();
+        true
+    }
     fn is_plain_add(&self, w: u64) -> bool {
         (w >> 60) < 12
     }
@@ -173,6 +193,19 @@ impl Obj for CmsObj {
     fn boxed_clone(&self) -> Box<dyn Obj> {
         Box::new(self.clone())
     }
+    fn as_any(&self) -> &dyn std::any::Any {
+        self
+    }
+    fn clone_from_obj(&mut self, src: &dyn Obj) -> bool {
+        let Some(s) = src.as_any().downcast_ref::<Self>() else { return false };
+        self.c.clone_from(&s.c);
+        self.u = s.u.clone();
+        self.w = s.w.clone();
+        self.d = s.d.clone();
+        self.bh = s.bh.clone();
+        self.total = s.total.clone();
+        true
+    }
     fn is_plain_add(&self, _w: u64) -> bool {
         self.total <= 1_000_000
     }
@@ -214,6 +247,16 @@ impl Obj for HllObj {
     }
     fn boxed_clone(&self) -> Box<dyn Obj> {
         Box::new(self.clone())
+    }
+    fn as_any(&self) -> &dyn std::any::Any {
+        self
+    }
+    fn clone_from_obj(&mut self, src: &dyn Obj) -> bool {
+        let Some(s) = src.as_any().downcast_ref::<Self>() else { return false };
+        self.h.clone_from(&s.h);
+        self.b = s.b.clone();
+        self.bh = s.bh.clone();
+        true
     }
     fn is_plain_add(&self, _w: u64) -> bool {
         // a hash whose rank is >= 1 always raises a register from 0; always true for add
@@ -288,6 +331,9 @@ impl Obj for TdObj {
     fn boxed_clone(&self) -> Box<dyn Obj> {
         Box::new(TdObj { t: self.t.boxed_clone(), sf: self.sf, delta: self.delta, backlog: self.backlog })
     }
+    fn as_any(&self) -> &dyn std::any::Any {
+        self
+    }
     fn is_plain_add(&self, w: u64) -> bool {
         (w >> 60) <= 12
     }
@@ -343,6 +389,16 @@ impl Obj for ResObj {
     fn boxed_clone(&self) -> Box<dyn Obj> {
         Box::new(self.clone())
     }
+    fn as_any(&self) -> &dyn std::any::Any {
+        self
+    }
+    fn clone_from_obj(&mut self, src: &dyn Obj) -> bool {
+        let Some(s) = src.as_any().downcast_ref::<Self>() else { return false };
+        self.s.clone_from(&s.s);
+        self.k = s.k.clone();
+        self.ctr = s.ctr.clone();
+        true
+    }
     fn is_plain_add(&self, _w: u64) -> bool {
         true
     }
@@ -381,6 +437,15 @@ impl Obj for LossyObj {
     }
     fn boxed_clone(&self) -> Box<dyn Obj> {
         Box::new(self.clone())
+    }
+    fn as_any(&self) -> &dyn std::any::Any {
+        self
+    }
+    fn clone_from_obj(&mut self, src: &dyn Obj) -> bool {
+        let Some(s) = src.as_any().downcast_ref::<Self>() else { return false };
+        self.l.clone_from(&s.l);
+        self.u = s.u.clone();
+        true
     }
     fn is_plain_add(&self, _w: u64) -> bool {
         true
@@ -421,6 +486,17 @@ impl Obj for HeapObj {
     }
     fn boxed_clone(&self) -> Box<dyn Obj> {
         Box::new(self.clone())
+    }
+    fn as_any(&self) -> &dyn std::any::Any {
+        self
+    }
+    fn clone_from_obj(&mut self, src: &dyn Obj) -> bool {
+        let Some(s) = src.as_any().downcast_ref::<Self>() else { return false };
+        self.h.clone_from(&s.h);
+        self.u = s.u.clone();
+        self.k = s.k.clone();
+        self.warm = s.warm.clone();
+        true
     }
     fn is_plain_add(&self, _w: u64) -> bool {
         true
@@ -638,6 +714,12 @@ fn clone_test(ctx: &Ctx, i: usize, rep: &mut Report) {
     let pre_n = r.below(if long { 3000 } else { 200 }) as usize;
     let mut_n = 1 + r.below(200) as usize;
     let wseed = r.next();
+    let via_clone_from = r.chance(0.4);
+    let target_long = r.chance(0.3);
+    let target_n = r.below(if target_long { 3000 } else { 60 }) as usize;
+    let mut r2 = FastRng::new(r.next());
+    let mut mk2 = build(fam, &mut r2, false);
+    let rep_clone_from = Cell::new(0u64);
     let mut name = String::new();
     let res = guarded(|| -> Option<(String, String)> {
         let mut s = mk();
@@ -647,10 +729,44 @@ fn clone_test(ctx: &Ctx, i: usize, rep: &mut Report) {
             s.apply(wr.next());
         }
         let mut c = s.boxed_clone();
+        let mut how = "clone()";
+        if via_clone_from {
+            // Clone::clone_from into a used structure of the same type that was built with another
+            // random configuration (Clone's contract: equivalent to `*t = s.clone()`)
+            let mut t = mk2();
+            let mut tr = FastRng::new(wseed ^ 0x7A26E7);
+            for _ in 0..target_n {
+                t.apply(tr.next());
+            }
+            if t.clone_from_obj(&*s) {
+                c = t;
+                how = "clone_from()";
+                rep_clone_from.set(rep_clone_from.get() + 1);
+            }
+        }
         let (os, oc) = (s.obs(), c.obs());
         if os != oc {
-            return Some(("C19/clone/differs-at-clone-time".into(), format!("clone after {} operations answers differently: {}", pre_n, first_diff(&os, &oc))));
+            return Some(("C19/clone/differs-at-clone-time".into(), format!("{} after {} operations answers differently: {}", how, pre_n, first_diff(&os, &oc))));
         }
+        if how == "clone_from()" {
+            // the copy made by clone_from and one made by clone() must stay in lock-step
+            let mut c2 = s.boxed_clone();
+            let mut cr = FastRng::new(wseed ^ 0xC0117);
+            for step in 0..mut_n.min(120) {
+                let w = cr.next();
+                let (ra, rb) = (c.apply(w), c2.apply(w));
+                let (oa, ob) = (c.obs(), c2.obs());
+                if ra != rb || oa != ob {
+                    return Some(("C19/clone/clone_from-copy-diverges".into(), format!("a copy made by clone_from() into a used structure and one made by clone() diverge at identical operation #{}: {}", step + 1, if ra != rb { format!("return code {} vs {}", ra, rb) } else { first_diff(&oa, &ob) })));
+                }
+            }
+            // continue the independence checks with the lock-stepped copy made by clone_from
+            let os_after = s.obs();
+            if os_after != os {
+                return Some(("C19/clone/original-changed-by-mutating-clone".into(), format!("operating on the clone_from() copy changed the original: {}", first_diff(&os, &os_after))));
+            }
+        }
+        let oc = c.obs();
         // (i) mutate the original, the clone must not change
         for _ in 0..mut_n {
             s.apply(wr.next());
@@ -678,6 +794,7 @@ fn clone_test(ctx: &Ctx, i: usize, rep: &mut Report) {
     });
     rep.evaluations += (pre_n + 2 * mut_n) as u64;
     rep.count("clone_runs", 1);
+    rep.count("clone_from_runs", rep_clone_from.get());
     match res {
         Ok(None) => {
             if pre_n >= 10 {
